@@ -366,15 +366,26 @@ func c14DocNilElems(c *core.Ctx) {
 				}
 				flow = litFlows[lit]
 			}
-			node := flow.EnclosingNode(at)
-			if node == nil {
+			guarded := func(flow *core.Flow, at ast.Node) bool {
+				node := flow.EnclosingNode(at)
+				if node == nil {
+					return false
+				}
+				for l, val := range flow.CondsAt(node) {
+					g := core.GuardOf(info, l, ff.Errs)
+					if (g.Kind == "nil" || g.Kind == "err") && g.X != nil && core.VarOf(info, g.X) == it.v && val == g.Neg {
+						return true
+					}
+				}
 				return false
 			}
-			for l, val := range flow.CondsAt(node) {
-				g := core.GuardOf(info, l, ff.Errs)
-				if (g.Kind == "nil" || g.Kind == "err") && g.X != nil && core.VarOf(info, g.X) == it.v && val == g.Neg {
-					return true
-				}
+			if guarded(flow, at) {
+				return true
+			}
+			// a captured variable: what is known where the closure is made still holds inside it
+			// (a variable that is assigned again is not followed at all)
+			if lit != nil && !(lit.Pos() <= it.v.Pos() && it.v.Pos() <= lit.End()) && guarded(ff.Flow, lit) {
+				return true
 			}
 			return shortCircuitGuard(info, fd.Decl.Body, at, it.v)
 		}
